@@ -260,7 +260,22 @@ ASSIGN = re.compile(r'\s*(\w+)\s*=\s*([^;=][^;]*);')
 IFBLOCK = re.compile(r'\s*if\s*\(((?:[^()]|\((?:[^()]|\([^()]*\))*\))*)\)\s*\{([^{}]*)\}')
 
 
-def run_prologue(ops, ints):
+EDGE_ATOM = re.compile(r'\s*([A-Za-z_]\w*)\s*(<=|>=|==)\s*(-?(?:\d+\.?\d*|\.\d+))\s*')
+
+
+def edge_atoms(cond, ints):
+    """a guard on the floating-point arguments of the form  x <= -1. && y >= 1.  (a conjunction of comparisons of a double parameter
+    with a literal) -> {name: (op, Fraction)} or None"""
+    out = {}
+    for part in cond.split('&&'):
+        m = EDGE_ATOM.fullmatch(part)
+        if not m or m.group(1) in ints:
+            return None
+        out[m.group(1)] = (m.group(2), Fraction(m.group(3)))
+    return out or None
+
+
+def run_prologue(ops, ints, edges=None):
     """interpret the statements ahead of a table for concrete index values.  -> ('return', exprtext) | ('table', ints', renaming)
     where `renaming` maps each double-valued name to the parameter whose value it holds after the statements"""
     ints = dict(ints)
@@ -285,6 +300,12 @@ def run_prologue(ops, ints):
         raise CParseError('unsupported assignment ahead of the table: %s = %s' % (target, rhs))
     for op in ops:
         if op[0] == 'ifreturn':
+            ea = edge_atoms(op[1], ints) if edges is not None else None
+            if ea is not None:
+                # an early return on a region of the floating-point arguments: the table below stays the definition elsewhere; the
+                # region is handed to the caller (CTables.edge_values), which compares the value returned there with the table's
+                edges.append((ea, op[2], dict(ints), dict(ren)))
+                continue
             if guard_holds(op[1], ints):
                 return ('return', op[2])
         elif op[0] == 'assign':
@@ -338,9 +359,11 @@ class CTables:
         fname, ret, args, node = self.funcs[name]
         idx = list(idx)
         renaming = {}
+        self.last_edges = []
         if node[0] == 'guard':
             names = switch_vars(node[2])
-            kind, *rest = run_prologue(node[1], dict(zip(names, idx)))
+            self.last_edges = []
+            kind, *rest = run_prologue(node[1], dict(zip(names, idx)), self.last_edges)
             if kind == 'return':
                 return parse_expr(rest[0], self.literals) if rest[0] else None
             idx = [rest[0][v] for v in names]
@@ -369,6 +392,58 @@ class CTables:
                     p = p.subs('__' + v, Poly.var(renaming[v]))
             return p
         raise CParseError('entry(): %s does not end in return' % name)
+
+    def edge_values(self):
+        """for the entry() just read: [(region {double parameter: (op, literal)}, Poly returned on that region)]; the returned expression
+        may be a call of another table function of the library with index expressions and parameter names as arguments"""
+        import glob
+        from .poly import Poly
+        out = []
+        for region, txt, ints, ren in list(self.last_edges):
+            m = re.fullmatch(r'\s*([A-Za-z_]\w*)\s*\((.*)\)\s*', txt or '', flags=re.S)
+            if not m or m.group(1) in ('pow', 'sqrt', 'fabs'):
+                out.append((region, parse_expr(txt, self.literals)))
+                continue
+            callee, argt = m.group(1), [a.strip() for a in m.group(2).split(',')]
+            if callee not in self.funcs:
+                for path in sorted(glob.glob(os.path.join(self.srcdir, '*.c'))):
+                    if re.search(r'\b%s\s*\(' % callee, open(path).read()) and os.path.basename(path) not in self.files:
+                        saved = self.last_edges
+                        self.load(os.path.basename(path))
+                        self.last_edges = saved
+                        if callee in self.funcs:
+                            break
+            if callee not in self.funcs:
+                raise CParseError('early return calls %s, which is not a table function of the library' % callee)
+            cargs = self.funcs[callee][2]
+            if len(cargs) != len(argt):
+                raise CParseError('early return calls %s with %d arguments for %d parameters' % (callee, len(argt), len(cargs)))
+            cnode = self.funcs[callee][3]
+            cnames = switch_vars(cnode[2] if cnode[0] == 'guard' else cnode)
+            cidx, sub = [], {}
+            for pn, at in zip(cargs, argt):
+                if pn in cnames:
+                    if not (set(re.findall(r'[A-Za-z_]\w*', at)) <= set(ints) and re.fullmatch(r'[\w\s()%+\-*]*', at)):
+                        raise CParseError('index argument %r of the early-return call is not an index expression' % at)
+                    cidx.append((pn, int(eval(at, {'__builtins__': {}}, dict(ints)))))
+                else:
+                    if not re.fullmatch(r'[A-Za-z_]\w*', at):
+                        raise CParseError('argument %r of the early-return call is not a parameter name' % at)
+                    sub[pn] = ren.get(at, at)
+            cd = dict(cidx)
+            saved = self.last_edges
+            pc = self.entry(callee, *[cd[v] for v in cnames])
+            self.last_edges = saved
+            if pc is None:
+                out.append((region, None))
+                continue
+            used = [v for v in sub if v in pc.vars()]
+            for v in used:
+                pc = pc.subs(v, Poly.var('__' + v))
+            for v in used:
+                pc = pc.subs('__' + v, Poly.var(sub[v]))
+            out.append((region, pc))
+        return out
 
     def vector(self, name, *idx):
         """{(array, k): Poly} assigned by `name` (after walking the switches with idx)"""
